@@ -626,6 +626,10 @@ func (d *driver) onResult(ar allocRes) {
 		d.holds[ar.p] = &held{e: e, a4: a4, a6: a6, res: ar.res[0]}
 		return
 	}
+	if h := d.holds[ar.p]; len(ar.res) > 0 && h != nil && h.e == e && h.a4 == a4 && h.a6 == a6 {
+		// the daemon does not hand back an address the pod holds by its stored record (AllocIP, withoutStored)
+		return
+	}
 	if len(ar.res) > 0 {
 		// what the daemon does when an ADD fails: hand back everything the call returned
 		d.w.Emit(vt.M{"ev": "release_call", "pod": ar.p, "e": e, "a4": a4, "a6": a6, "rollback": true})
@@ -851,6 +855,8 @@ func (d *driver) settle(max time.Duration) {
 
 // drain brings the system to rest with a healthy cloud and emits the quiescent observation.
 func (d *driver) drain() {
+	t0 := time.Now()
+	rounds := 0
 	c := d.s.cloud
 	c.mu.Lock()
 	c.plan = nil
@@ -919,6 +925,7 @@ func (d *driver) drain() {
 		return true
 	}
 	for round := 0; round < 40; round++ {
+		rounds++
 		d.s.clearInhibit()
 		for _, l := range d.s.locals {
 			l.sync()
@@ -940,7 +947,7 @@ func (d *driver) drain() {
 	for p, h := range d.holds {
 		hs[fmt.Sprint(p)] = vt.M{"e": h.e, "a4": h.a4, "a6": h.a6}
 	}
-	d.w.Emit(vt.M{"ev": "quiescent", "st": d.s.status(), "cloud": snap, "healthy": true, "faults": faults, "held": hs})
+	d.w.Emit(vt.M{"ev": "quiescent", "st": d.s.status(), "cloud": snap, "healthy": true, "faults": faults, "held": hs, "drain_ms": int(time.Since(t0) / time.Millisecond), "rounds": rounds})
 }
 
 func (d *driver) waitIdle(max time.Duration) {
@@ -1074,6 +1081,16 @@ func TestVerifPool(t *testing.T) {
 				q := 1 + rng.Intn(4)
 				sc = append(sc, vt.M{"a": "release", "p": q}, vt.M{"a": "alloc", "p": q}, vt.M{"a": "wait", "us": rng.Intn(300)}, vt.M{"a": "cancel", "p": q})
 			}
+		}
+		if k%5 == 4 {
+			// dual stack with assign calls that take effect but report an error / a partial result, per family
+			c := vt.Map(sc[0]["conf"])
+			c["v6"], c["cap"], c["batch"], c["pre"], c["trunk"] = true, 3, 2, 0, false
+			sc = append(sc, vt.M{"a": "uninhibit"}, vt.M{"a": "alloc", "p": 1}, vt.M{"a": "settle"},
+				vt.M{"a": "plan", "kind": "assign6", "outcomes": []any{"fa"}}, vt.M{"a": "alloc", "p": 2}, vt.M{"a": "alloc", "p": 3}, vt.M{"a": "settle"},
+				vt.M{"a": "uninhibit"}, vt.M{"a": "settle"}, vt.M{"a": "release", "p": 2},
+				vt.M{"a": "plan", "kind": "assign4", "outcomes": []any{"fa:vswfull"}}, vt.M{"a": "plan", "kind": "assign6", "outcomes": []any{"partial:1"}},
+				vt.M{"a": "alloc", "p": 4}, vt.M{"a": "alloc", "p": 2}, vt.M{"a": "settle"}, vt.M{"a": "uninhibit"}, vt.M{"a": "settle"})
 		}
 		if k%2 == 0 {
 			// an address a pod holds is removed remotely, the periodic sync sees it, the pod leaves, the next pods arrive
